@@ -487,6 +487,19 @@ class Fn(object):
 
     # ------------------------------------------------------------ trace units
     def reads_ignored(self, node):
+        if self.inputs:
+            # a sub-expression that is a declared input is not read any further
+            def walk(n_):
+                if isinstance(n_, ast.expr) and ast.unparse(n_) in self.inputs:
+                    return
+                yield n_
+                for c_ in ast.iter_child_nodes(n_):
+                    for x_ in walk(c_):
+                        yield x_
+            nodes = list(walk(node))
+            return any(isinstance(n_, ast.Name) and n_.id in self.tr['ignore_locals'] for n_ in nodes) or \
+                any(isinstance(n_, ast.Attribute) and isinstance(n_.value, ast.Name) and n_.value.id == 'self'
+                    and n_.attr in self.tr['ignore_fields'] for n_ in nodes)
         return any(isinstance(n_, ast.Name) and n_.id in self.tr['ignore_locals'] for n_ in ast.walk(node)) or \
             any(isinstance(n_, ast.Attribute) and isinstance(n_.value, ast.Name) and n_.value.id == 'self'
                 and n_.attr in self.tr['ignore_fields'] for n_ in ast.walk(node))
@@ -528,7 +541,16 @@ class Fn(object):
                 if ty_ != 'Opaque':
                     env2[n_] = ty_
             ev_ = self.tr.get('assigned_input_events', {}).get(ast.unparse(s.value.func))
-            return (pad + 'let trace := trace ++ [Event.%s]\n' % ev_ if ev_ else '') + self.block(rest, env2, ret, self_ty, indent)
+            go_ = (pad + 'let trace := trace ++ [Event.%s]\n' % ev_ if ev_ else '') + self.block(rest, env2, ret, self_ty, indent)
+            ri_ = self.tr.get('raising_inputs', {}).get(ast.unparse(s.value.func))
+            if ri_:
+                # the declared call may raise (an input): the exception leaves the function as the last event
+                if self.in_loop:
+                    raise Unsupported('a raising input inside a loop')
+                return pad + 'if %s then\n%s  some (trace ++ [Event.%s])\n%selse\n%s' % (
+                    lean_name(ri_['param']), pad, ri_['event'], pad,
+                    '\n'.join('  ' + l_ for l_ in go_.split('\n')))
+            return go_
         if isinstance(s, ast.Assign) and len(s.targets) == 1 and isinstance(s.targets[0], ast.Attribute) \
                 and ast.unparse(s.targets[0]) in self.tr.get('attr_events', {}):
             ev = self.tr['attr_events'][ast.unparse(s.targets[0])]
@@ -1205,6 +1227,7 @@ def translate(spec, repo):
                 'assigned_input_events': u.get('assigned_input_events', {}),
                 'try_finally': u.get('try_finally'), 'refuse_try': u.get('refuse_try', False),
                 'subscript_events': u.get('subscript_events', {}), 'loop_events': u.get('loop_events', {}),
+                'raising_inputs': u.get('raising_inputs', {}),
                 'lock_release_events': u.get('lock_release_events', {}),
                 'units': dict((k_, v_) for k_, v_ in trace_units.items() if k_ != own_key)}))
             env = dict((p_, t) for p_, t in u['params'].items() if t != 'Opaque')
@@ -1218,6 +1241,8 @@ def translate(spec, repo):
                 iparams.append((p_, 'Bool'))
             if u.get('try_finally'):
                 iparams.append((u['try_finally']['param'], 'Bool'))
+            for d_ in u.get('raising_inputs', {}).values():
+                iparams.append((d_['param'], 'Bool'))
             for n_ in ast.walk(fn):                      # the inputs of the trace units it calls are its inputs too
                 if isinstance(n_, ast.Call) and ast.unparse(n_.func) in trace_units and ast.unparse(n_.func) != own_key \
                         and ast.unparse(n_.func) not in u.get('assigned_inputs', {}) \
@@ -1234,7 +1259,8 @@ def translate(spec, repo):
                 if u.get('try_handlers') else 'whether the body of its `try ... finally` raises is an input'
                 if u.get('try_finally') else 'of a `try` statement only the body is translated'))
             out.append('def %s %s : Option (List Event) :=\n  let trace : List Event := []\n%s\n' % (
-                trace_units[own_key]['lean'], sig, body))
+                ('%s_%s' % (cls_name(u['class']), u['name'].lstrip('_'))) if u.get('class') else lean_name(u['name'].lstrip('_')),
+                sig, body))
         elif kind == 'call_arg':
             # the n-th argument of the one call of `call` inside the function, as a function of the inputs
             table, iparams = unit_inputs(u)
